@@ -46,6 +46,12 @@ var units = map[string]unit{
 		Imports:   []string{"AggkitModel.Model.GenPrelude"},
 		Custom:    initialStatusUnit,
 	},
+	"FlowBase": {
+		Files:     []string{"aggsender/flows/flow_base.go", "agglayer/types/types.go"},
+		Namespace: "Aggkit.Gen.FlowBase",
+		Imports:   []string{"AggkitModel.Model.GenPrelude"},
+		Custom:    flowBaseUnit,
+	},
 	"Schema": {
 		Files:     []string{"*/migrations/*.sql", "db/sqlite.go"},
 		Namespace: "Aggkit.Gen.Schema",
